@@ -14,6 +14,7 @@
    Every transaction is "validate, then a list of primitive effects": effects are only
    produced when every check passed — the mechanism behind C03. *)
 From Minter Require Export Base.
+From Minter Require Pool Orders.
 From Coq Require Import ZArith List Bool.
 Import ListNotations.
 Open Scope Z_scope.
@@ -50,6 +51,8 @@ Definition cTooLargeOwnersList := 605.
 Definition cDuplicatedAddresses := 606.
 Definition cDifferentCountAddressesAndWeights := 607.
 Definition cNotEnoughMultisigVotes := 609.
+Definition cMinimumValueToBuyReached := 303.
+Definition cInsufficientLiquidity := 703.
 Definition cCoinNotMintable := 801.
 Definition cCoinNotBurnable := 802.
 
@@ -68,7 +71,10 @@ Record coinrec := { c_id : Z; c_sym : Z; c_ver : Z; c_vol : Z; c_max : Z; c_mint
 Record prices := { p_payload_byte : Z; p_send : Z; p_multisend_base : Z; p_multisend_delta : Z;
                    p_ticker3 : Z; p_ticker4 : Z; p_ticker5 : Z; p_ticker6 : Z; p_ticker7 : Z;
                    p_create_token : Z; p_recreate_token : Z; p_mint : Z; p_burn : Z; p_lock : Z;
-                   p_redeem : Z; p_create_multisig : Z; p_edit_owner : Z; p_failed : Z }.
+                   p_redeem : Z; p_create_multisig : Z; p_edit_owner : Z; p_failed : Z;
+                   (* the coin the table is denominated in (0 = base coin) and the reserves of its pool with the
+                      base coin (price coin, base coin); the pool carries no orders and is not traded in this model *)
+                   p_pcoin : Z; p_prc : Z; p_prb : Z }.
 
 Record st := {
   s_bal : list (Z * Z * Z);          (* (address, coin, amount) entries; a balance is the sum of its entries *)
@@ -231,9 +237,29 @@ Definition type_price (p : prices) (d : txdata) : Z :=
 
 Definition data_len (t : tx) : Z := t_payload_len t + t_service_len t.
 
-(* Transaction.Price then MulGasPrice *)
-Definition tx_price (p : prices) (t : tx) : Z := t_gas_price t * (type_price p (t_data t) + data_len t * p_payload_byte p).
-Definition failed_price (p : prices) (t : tx) : Z := t_gas_price t * (p_failed p + data_len t * p_payload_byte p).
+(* conversion of an amount of the price coin into base coin through its pool: CheckSwap(pool, valueIn,
+   valueOut = 0, isBuy = false) = CalculateBuyForSellWithOrders (order commission taken first) on a pool
+   without orders; a result below 1 is MinimumValueToBuyReached *)
+Definition conv (p : prices) (x : Z) : Z + Z :=
+  match Orders.bfs_loop_x (p_prc p) (p_prb p) (if 0 <? x then x - Pool.com1000 x else x) [] with
+  | Val (o, _) => if o <? 1 then inr cMinimumValueToBuyReached else inl o
+  | Nil => inr cInsufficientLiquidity
+  | Panic _ => inr cInsufficientLiquidity
+  end.
+Definition base_of (p : prices) (x : Z) : Z + Z := if p_pcoin p =? 0 then inl x else conv p x.
+
+(* Transaction.Price then MulGasPrice, in the price coin *)
+Definition table_price (p : prices) (t : tx) : Z := t_gas_price t * (type_price p (t_data t) + data_len t * p_payload_byte p).
+Definition failed_table (p : prices) (t : tx) : Z := t_gas_price t * (p_failed p + data_len t * p_payload_byte p).
+
+(* ... converted to base coin as RunTx does: the transaction price only when it is not zero; the
+   failed-transaction price always, and it must come out positive *)
+Definition tx_price_r (p : prices) (t : tx) : Z + Z := if table_price p t =? 0 then inl 0 else base_of p (table_price p t).
+Definition tx_price (p : prices) (t : tx) : Z := match tx_price_r p t with inl v => v | inr _ => 0 end.
+Definition failed_price_r (p : prices) (t : tx) : Z + Z :=
+  if p_pcoin p =? 0 then inl (failed_table p t)
+  else match conv p (failed_table p t) with inr c => inr c | inl v => if 0 <? v then inl v else inr cCommissionCoinNotSufficient end.
+Definition failed_price (p : prices) (t : tx) : Z := match failed_price_r p t with inl v => v | inr _ => 0 end.
 
 (* CalculateCommission: base coin: the price itself; zero price: zero; otherwise neither a pool
    nor a reserve route exists in this model *)
@@ -275,8 +301,10 @@ Definition gate (s : st) (t : tx) : option Z :=
        | Some c => Some c
        | None =>
          if negb (get_nonce (s_nonce s) (sender_of t) + 1 =? t_nonce t) then Some cWrongNonce
-         else if negb (tx_price (s_prices s) t =? 0) && negb (0 <? tx_price (s_prices s) t) then Some cCommissionCoinNotSufficient
-         else None
+         else match tx_price_r (s_prices s) t with
+              | inr c => Some c
+              | inl v => if negb (table_price (s_prices s) t =? 0) && negb (0 <? v) then Some cCommissionCoinNotSufficient else None
+              end
        end.
 
 Fixpoint has_dup (l : list Z) : bool :=
@@ -438,6 +466,9 @@ Definition payer_of (t : tx) : Z + Z :=   (* inl payer | inr code (the check can
 
 (* the failed-transaction branch of RunTx (deliver mode): the response code and the effects *)
 Definition failed_branch (s : st) (t : tx) (code : Z) : Z * list eff :=
+  match failed_price_r (s_prices s) t with
+  | inr c => (c, [])
+  | inl _ =>
   match calc_commission (t_gas_coin t) (failed_price (s_prices s) t) with
   | None => (cCommissionCoinNotSufficient, [])
   | Some com =>
@@ -450,14 +481,18 @@ Definition failed_branch (s : st) (t : tx) (code : Z) : Z * list eff :=
         (code, [EBal payer (t_gas_coin t) (- fee); ERpool fee])
       else (code, [])
     end
+  end
   end.
 
 (* the ticker-fee branch after a successful CreateToken: burned from the reward pool to the zero address *)
 Definition symbol_branch (s : st) (t : tx) : Z * list eff :=
   match t_data t with
   | CreateToken _ symlen _ _ _ _ _ _ =>
-    let sp := t_gas_price t * ticker_price (s_prices s) symlen in
-    if 0 <? sp then (cOK, [ERpool (- sp); EBal zero_address 0 sp]) else (cOK, [])   (* zero ticker fee: nothing to burn *)
+    (* priced in the price coin, converted like the commission; a fee that is zero or cannot be priced is not burned *)
+    match base_of (s_prices s) (t_gas_price t * ticker_price (s_prices s) symlen) with
+    | inl sp => if 0 <? sp then (cOK, [ERpool (- sp); EBal zero_address 0 sp]) else (cOK, [])
+    | inr _ => (cOK, [])
+    end
   | _ => (cOK, [])
   end.
 
